@@ -1265,6 +1265,18 @@ func (s *State) evalInfixExpression(operator token.Type, left, right object.Obje
 	}
 }
 
+// repeatLen is n*times without overflow: when the product doesn't fit, it returns a length that the
+// memory guard (object.MustBeOk / MakeObjectSlice) will refuse.
+func repeatLen(n int, times int64) int {
+	if n == 0 || times <= 0 {
+		return 0
+	}
+	if times > int64(math.MaxInt/object.ObjectSize/n) {
+		return math.MaxInt / object.ObjectSize
+	}
+	return n * int(times)
+}
+
 func (s *State) evalStringInfixExpression(operator token.Type, left, right object.Object) object.Object {
 	leftVal := left.(object.String).Value
 	rightVal, rightIsInt := Int64Value(right)
@@ -1273,10 +1285,10 @@ func (s *State) evalStringInfixExpression(operator token.Type, left, right objec
 		rightVal := right.(object.String).Value
 		return object.String{Value: leftVal + rightVal}
 	case operator == token.ASTERISK && rightIsInt:
-		n := len(leftVal) * int(rightVal)
 		if rightVal < 0 {
 			return s.Errorf("right operand of * on strings must be a positive integer, got %d", rightVal)
 		}
+		n := repeatLen(len(leftVal), rightVal)
 		object.MustBeOk(n / object.ObjectSize)
 		return object.String{Value: strings.Repeat(leftVal, int(rightVal))}
 	default:
@@ -1297,7 +1309,10 @@ func (s *State) evalArrayInfixExpression(operator token.Type, left, right object
 		if rightVal < 0 {
 			return s.NewError("right operand of * on arrays must be a positive integer")
 		}
-		result := object.MakeObjectSlice(len(leftVal) * int(rightVal))
+		if len(leftVal) == 0 {
+			return object.NewArray(nil) // [] * n is [] (and not a loop of n iterations).
+		}
+		result := object.MakeObjectSlice(repeatLen(len(leftVal), rightVal))
 		for range rightVal {
 			result = append(result, leftVal...)
 		}
